@@ -324,6 +324,12 @@ class ParametricModelBaseMixin(object):
     def _get_object_type_name(cls):
         return "parametric_model"
 
+    def _get_error_reference(self, *args, **kwargs):
+        # model values are recomputed lazily: bring them up to date before they are used as a reference
+        if self._pm_calculation_stale:
+            self._recalculate()
+        return super(ParametricModelBaseMixin, self)._get_error_reference(*args, **kwargs)
+
     @property
     def ndf(self):
         return self.size - self._model_function_object.parcount
